@@ -107,6 +107,13 @@ CHECKS = {
         assumptions=['the universal claim over adversarial INPUTS for compressBound is input generation (random, incompressible and splitter-fooling generators), not simulation: only the capacity axis is treated as a fault dimension', 'multithreaded compression is not part of this scenario'],
         coverage_extra=lambda t: dict(capacities_tried=t.probes.get('c06.capacities_tried', 0), exhaustive_sweeps=t.probes.get('c06.exhaustive_capacity_sweeps', 0)),
     ),
+    'C14': dict(
+        level='exploration',
+        batches=[dict(scenario='c14budget', flavour='P', quick=7200, thorough=200000), dict(scenario='c14budget', flavour='A', quick=1800, thorough=40000)],
+        rule='9 variants in rotation: static CCtx one-shot (estimateCCtxSize(L), level l<=L with level 0 = default), static CStream with flushes, static CCtx / CStream sized by *_usingCParams with exactly those cParams, static DCtx + static DStream sized from the frame (decoded through a 4 KiB bounce buffer), static CDict/DDict, heap DStream under the accounting allocator against a window limit (with and without dictionary), sizeof_* vs live bytes over a 3-frame history; distinct = distinct plan signature',
+        real=REAL_COMMON, stub=['allocator seam as monitor: libc allocations trapped (wrap) while static contexts work; accounting allocator with peak/live bytes for heap contexts', 'guard-zoned caller-provided workspaces of exactly estimate bytes'],
+        assumptions=['"level l <= L" is over effective levels (0 = ZSTD_CLEVEL_DEFAULT)', 'the sweep over levels / cParams / inputs is generated workload (rides along); the simulated dimension is the allocator as enforcer and monitor'],
+    ),
 }
 
 def default_root(tier):
